@@ -21,6 +21,7 @@ SPEC = {
         # tie theorems (SemaModel/C02/Tie.lean, notes/T1ext.md section 7): model functions = definitions generated from the Go source
         "Sema.C02.C02_tie_getOperation", "Sema.C02.C02_tie_getOperation_prevErr", "Sema.C02.C02_tie_getOperation_curErr",
         "Sema.C02.C02_tie_getOperation_ok", "Sema.C02.C02_tie_toChange", "Sema.C02.C02_tie_toArrChange",
+        "Sema.C02.C02_tie_search_arms", "Sema.C02.C02_tie_search_range", "Sema.C02.C02_tie_search_inRange_err",
     ],
     "trusted_base": [
         "SemaModel/Compose/Model.lean (the combined model: C01's point store + C02's indexes + C06's answer pipeline; new in it: the change stream of a batch, the index verdict, one write step for both, searchPoints) is tied to the code by a second correspondence run: the compiled combined model (`semadriver C02 compose`) answers every op line of the same histories — allocating the node ids itself, compared with the ones the shard allocated — plus `searchx` lines (select / sort / offset / limit through the whole SearchPoints pipeline); a stored top-level value is opaque text in the point store and is read by two parameters (Conv.idx, Conv.sel) — theorems hold for every such pair, the driver's pair is the value syntax of the op lines",
